@@ -269,6 +269,47 @@ pub fn run(tier: &str, seed: u64, outdir: &str) {
         }
         let _ = std::fs::remove_dir_all(&dir);
     }
+    // --- one path, two files in succession (a holder that fetches each registry's tails file to the same local name):
+    // a reader opened after the file was replaced reads the file that is there now
+    {
+        let dir = format!("{}/fixed", outdir);
+        std::fs::create_dir_all(&dir).unwrap();
+        let fixed = format!("{}/tails.bin", dir);
+        let mut published: Vec<String> = vec![];
+        for (si, (gen_json, _)) in gens.iter().enumerate() {
+            let d = format!("{}/p{}", dir, si);
+            std::fs::create_dir_all(&d).unwrap();
+            let mut g: RevocationTailsGenerator = serde_json::from_str(gen_json).unwrap();
+            published.push(TailsFileWriter::new(Some(d)).write(&mut g).unwrap().0);
+        }
+        for round in 0..2usize {
+            for si in 0..gens.len() {
+                let how = if (si + round) % 2 == 0 { "rename" } else { "remove-and-copy" };
+                if how == "rename" {
+                    let tmp = format!("{}/incoming", dir);
+                    std::fs::copy(&published[si], &tmp).unwrap();
+                    std::fs::rename(&tmp, &fixed).unwrap();
+                } else {
+                    let _ = std::fs::remove_file(&fixed);
+                    std::fs::copy(&published[si], &fixed).unwrap();
+                }
+                let tails = &gens[si].1;
+                let nt = tails.len() as u64;
+                let reader = TailsFileReader::new(&fixed).unwrap();
+                let mut reads = vec![];
+                for k in [0u64, 1, nt / 2, nt - 1, nt] {
+                    let mut got: Option<Vec<u8>> = None;
+                    let res = reader.access_tail(k as u32, &mut |t| got = Some(t.to_bytes().unwrap()));
+                    reads.push(format!("({} {})", k, match (&res, &got) { (Ok(()), Some(b)) => format!("({})", sx::b(b)), _ => "()".to_string() }));
+                }
+                let id = out.next_id();
+                let line = format!("(C19 {} R {} {})", id, sx::list(tails.iter(), |t| sx::b(t)), sx::l(&reads));
+                let ntl = tails.len();
+                out.case(&line, "read-back:path-reused", || json!({"kind": "read", "tails": ntl, "how_replaced": how}));
+            }
+        }
+        let _ = std::fs::remove_dir_all(&dir);
+    }
     for i in 0..gens.len() {
         let _ = std::fs::remove_file(format!("{}/gen{}.json", outdir, i));
     }
